@@ -505,7 +505,16 @@ def rule_pattern_handover(ctx):
         ctx.violation("Snapshot::<T>::update|pattern|1", site(up, 0), "Snapshot::update does not copy the worker's pattern")
 
 
+def rule_update_guard(ctx):
+    """Premise of `changed == false ⇒ nothing was replaced` and of `running == false ⇒ the finished results are
+    installed`: shared with C06/C12 (Snapshot::update guards, was_canceled set/cleared discipline, update before the
+    worker's pattern is replaced)."""
+    from props.c12 import update_guard
+    update_guard(ctx, "C19")
+
+
 def rules(ctx):
+    ctx.run_rule("C19.update-guard", rule_update_guard)
     ctx.run_rule("C19.changed-guards-mutation", rule_changed_guards_mutation)
     ctx.run_rule("C19.running-guards-spawn", rule_running_guards_spawn)
     ctx.run_rule("C19.running-formula", rule_running_formula)
